@@ -44,6 +44,17 @@ def label_cases(tier):
             tabs = tables_block(T, K, "base3", 0, total)
             betas = [0.0, 1.0, 5.0, 2] + [np.array(v, dtype=np.float64) for v in itertools.product((0.0, 2.0), repeat=T)][:8]
             out.append((T, K, "int", tabs, betas))
+            if T * K <= 4:
+                # tables holding non-finite costs (what a degenerate cluster hands the kernel): every mode must
+                # treat them alike - compared with NaN == NaN
+                for tag, vals in (("nan", np.array([0.0, 1.0, np.nan])), ("inf", np.array([0.0, 1.0, np.inf]))):
+                    n = 3 ** (T * K)
+                    idx = np.arange(n)
+                    digits = np.empty((n, T * K), dtype=np.int64)
+                    for c in range(T * K - 1, -1, -1):
+                        digits[:, c] = idx % 3
+                        idx = idx // 3
+                    out.append((T, K, tag, vals[digits].reshape(n, T, K), [0.0, 1.0]))
             if T * K <= 4 or tier == "thorough":
                 vals = np.array(REAL_ALPHA)
                 n = len(vals) ** (T * K)
@@ -81,9 +92,13 @@ def lik_cases():
         bm = base_matrices(NW)
         for K in (1, 2, 3):
             thetas = [bm[k % len(bm)][1] * (1.0 + 0.5 * k) for k in range(K)]
-            for T in (1, 2, 5, 17) + ((600,) if (NW, K) in ((2, 3), (6, 2)) else ()):
+            for T in (1, 2, 5, 17) + ((600, 601) if (NW, K) in ((2, 3), (6, 2)) else ()):
                 rng = np.random.default_rng(1000 * NW + 10 * K + T)
                 X = np.round(rng.normal(size=(T, NW)) * 2, 3)
+                if T == 601:
+                    # sample-and-hold data: runs of identical consecutive rows (any shortcut that reuses the
+                    # previous row's result crosses the boundary between two threads' shares somewhere)
+                    X = np.repeat(X[:87], 7, axis=0)[:T]
                 means = [np.round(rng.normal(size=NW), 3) for _ in range(K)]
                 out.append((NW, K, T, thetas, means, X))
     return out
@@ -231,8 +246,8 @@ def run(ctx):
             if T > 1 and K > 1:
                 nontrivial += len(labs)
             bad = np.flatnonzero((labs != l2).any(axis=1))
-            if kind == "int":
-                badc = np.flatnonzero(costs != c2)
+            if kind in ("int", "nan", "inf"):
+                badc = np.flatnonzero(~((costs == c2) | (np.isnan(costs) & np.isnan(c2))))
             else:
                 badc = np.flatnonzero(~(np.abs(costs - c2) <= 1e-12 * np.maximum(1.0, np.abs(costs))))
             if len(bad) or len(badc):
@@ -301,8 +316,8 @@ def run(ctx):
     ctx.cov["rule"] = (
         "three processes (JIT, NUMBA_DISABLE_JIT=1, numba unimportable): (i) labelling kernel on every table over "
         "{0,1,3}^(T*K), T*K<=6 (thorough 8) x 12 betas (identical labels and cost) and over the real alphabet "
-        "{0.1,0.7,-1.3,1e-9,1e9} for T*K<=4 (thorough <=6) x 3 betas (identical labels, cost within 1e-12); (ii) "
-        "likelihood table for NW in {1,2,6,40} (thorough +100) x K in {1,2,3} x T in {1,2,5,17} (+600 rows for two shapes, repeated 6 times free-running per thread count) x layouts {C, Fortran, strided view} "
+        "{0.1,0.7,-1.3,1e-9,1e9} for T*K<=4 (thorough <=6) x 3 betas (identical labels, cost within 1e-12) and over {0,1,nan} / {0,1,inf} for T*K<=4 (identical, NaN == NaN); (ii) "
+        "likelihood table for NW in {1,2,6,40} (thorough +100) x K in {1,2,3} x T in {1,2,5,17} (+600 random rows and 601 sample-and-hold rows for two shapes, repeated 6 times free-running per thread count) x layouts {C, Fortran, strided view} "
         "in every mode and for numba thread counts {1,2,4,8,16}: within 1e-10 x scale of the Cholesky log-density, "
         "bitwise equal across thread counts; interpreted modes with the parallel loop's range replaced by every "
         "permutation (T<=5) / 3 structured orders: bitwise equal; (iii) complete scripted runs for every 4th "
